@@ -3,6 +3,7 @@ package main
 import (
 	"bufio"
 	"encoding/json"
+	"math/rand"
 	"os"
 	"strings"
 
@@ -329,6 +330,46 @@ func replayCallsFile(in string, w *writer) int {
 		// a Reset line per call keeps the history-based triage uniform
 		w.emit(&EngEv{Ev: "Reset", Chk: []string{}, Hist: js})
 		w.emit(ev)
+		n++
+	}
+	return n
+}
+
+// replaySmallFile: the exhaustive small scope of spec/SmallScope.tla (every element is one boolean operation)
+func replaySmallFile(r *rand.Rand, in string, w *writer, chk []string) int {
+	f, err := os.Open(in)
+	if err != nil {
+		fatal(err)
+	}
+	defer f.Close()
+	sc := bufio.NewScanner(f)
+	sc.Buffer(make([]byte, 1<<20), 1<<24)
+	n := 0
+	for sc.Scan() {
+		ln := sc.Text()
+		i := strings.Index(ln, `<<"HIST", `)
+		if i < 0 {
+			continue
+		}
+		q := strings.TrimSuffix(strings.TrimSpace(ln[i+len(`<<"HIST", `):]), ">>")
+		var js string
+		if err := json.Unmarshal([]byte(q), &js); err != nil {
+			fatal("bad HIST line", err, ln)
+		}
+		var in struct {
+			Subj Paths `json:"subj"`
+			Clip Paths `json:"clip"`
+			Ct   int   `json:"ct"`
+			Fr   int   `json:"fr"`
+		}
+		if err := json.Unmarshal([]byte(js), &in); err != nil {
+			fatal("bad input", err, js)
+		}
+		e := &BoolEv{Ev: "BooleanOp", Chk: chk, Api: boolApis[n%len(boolApis)], Ct: in.Ct, Fr: in.Fr,
+			Subj: nz(in.Subj), Clip: nz(in.Clip)}
+		execBool(r, e)
+		w.emit(&EngEv{Ev: "Reset", Chk: []string{}, Hist: js})
+		w.emit(e)
 		n++
 	}
 	return n
